@@ -99,6 +99,7 @@ static int in_cb_slot = -1, in_cb_kind = -1;
 /* user descriptors */
 #define NUFD 3
 static struct { int rd, wr, open_rd, bytes; } UFD[NUFD];
+static int BADFD = -1;                      /* a descriptor epoll refuses (regular file): key 14 of the descriptor kind */
 
 static const uint64_t TMO[] = { 0, 5000000ull, 20000000ull };     /* batch timeouts: none, 5 ms, 20 ms */
 static const uint64_t TPER[] = { 1ull, 1000000ull, 2000000000ull, 4294967296ull, 8589934593ull, 3000000ull };  /* timer periods (ns) */
